@@ -133,6 +133,8 @@ pub enum Ev {
     Evict { node: u8, scope: u8 },
     Alter { node: u8 },
     Poison { node: u8 },
+    /// from now on the node attaches metadata to every Rows answer although skip_metadata was asked and the id matches
+    Chatty { node: u8 },
     /// caller b (a clone of handle A: shared metadata) issues its request while caller a's UNPREPARED answer
     /// (gate 0) or re-PREPARE answer (gate 1) is parked; then both parked answers are released, a's first
     /// (first 0) or b's first (first 1). kind: 0 execute, 1 batch.
@@ -154,6 +156,7 @@ impl Ev {
             Ev::Evict { node, scope } => format!("evict{}@{node}", ["", "-sel", "-upd"][scope as usize]),
             Ev::Alter { node } => format!("alter@{node}"),
             Ev::Poison { node } => format!("poison@{node}"),
+            Ev::Chatty { node } => format!("chatty@{node}"),
             Ev::Overlap { node, gate, first, kind } => format!("overlap:{}:{}:{}@{node}", ["exec", "batch"][kind as usize], ["unprep", "prep", "rows+alter"][gate as usize], ["a1st", "b1st"][first as usize]),
         }
     }
@@ -175,6 +178,7 @@ impl Ev {
             "evict-upd" => Ev::Evict { node, scope: 2 },
             "alter" => Ev::Alter { node },
             "poison" => Ev::Poison { node },
+            "chatty" => Ev::Chatty { node },
             _ => {
                 let parts: Vec<&str> = head.split(':').collect();
                 match parts.as_slice() {
@@ -336,6 +340,8 @@ pub struct NodeM {
     pub cache: [[bool; 2]; 3],
     pub version: u8,
     pub poisoned: bool,
+    /// the node attaches result metadata to every Rows answer even when skip_metadata was asked and the presented id is current
+    pub chatty: bool,
 }
 
 #[derive(Clone, Debug, PartialEq, Eq)]
@@ -519,6 +525,7 @@ impl NodeModel {
                 } else {
                     (params.skip_metadata, None)
                 };
+                let no_metadata = no_metadata && !self.nodes[n].chatty;
                 self.trace.push(Rec { node: n, conn: ctx.conn, req, resp: Resp::Rows { version: v, sent_metadata: !no_metadata, changed: new_id.is_some(), page } });
                 if page == 0 {
                     if let Some((mn, what)) = self.mid {
@@ -580,6 +587,15 @@ pub struct Viol {
 }
 fn viol<T>(key: &str, text: String) -> Result<T, Viol> {
     Err(Viol { key: key.to_string(), text })
+}
+
+/// Why a world did not come up.
+#[derive(Clone, Debug)]
+pub enum SetupFail {
+    /// the harness itself failed (mock cannot bind, session cannot connect, ports exhausted): exit 2, never a verdict
+    Machinery(String),
+    /// the mock answered correctly and the DRIVER failed (initial PREPARE, warm-up EXECUTE): a violation like any other
+    Violation(Viol),
 }
 
 /// What a caller saw.
@@ -689,7 +705,17 @@ impl Drop for World {
 }
 
 impl World {
-    pub fn new(cfg: Cfg) -> Result<World, String> {
+    pub fn new(cfg: Cfg) -> Result<World, SetupFail> {
+        Self::new_inner(cfg).map_err(|e| match e.strip_prefix("VIOLATION ") {
+            Some(rest) => {
+                let (key, text) = rest.split_once('|').unwrap_or(("setup:failed", rest));
+                SetupFail::Violation(Viol { key: key.to_string(), text: text.to_string() })
+            }
+            None => SetupFail::Machinery(e),
+        })
+    }
+
+    fn new_inner(cfg: Cfg) -> Result<World, String> {
         let rt = shared_runtime();
         let model = Arc::new(Mutex::new(NodeModel { late: cfg.late, nodes: vec![NodeM::default(); cfg.nodes], trace: Vec::new(), mid: None, drop_after_prepare: None, malformed: Vec::new() }));
         let m2 = model.clone();
@@ -739,7 +765,16 @@ impl World {
         });
         let (cluster, session, caching, handles, stmt_l, stmt_i, policies) = match built {
             Ok(x) => x,
-            Err(e) => return Err(e),
+            Err(e) => {
+                // an initial PREPARE that the node answered (it is in the model's trace) and the driver still rejected is
+                // the driver's failure; connection-level trouble (ports exhausted, pool broken) is the harness's
+                let answered = !model.lock().unwrap().trace.is_empty();
+                let infra = ["pool", "Address already in use", "onnection", "did not come up", "bind"].iter().any(|w| e.contains(w));
+                if e.starts_with("initial prepare") && answered && !infra {
+                    return Err(format!("VIOLATION setup:prepare-failed|the node answered the initial PREPAREs, yet Session::prepare failed: {e}"));
+                }
+                return Err(e);
+            }
         };
         // every node must have seen every initial PREPARE (Session::prepare goes to all nodes)
         {
@@ -785,9 +820,23 @@ impl World {
             // (it presents the id, or presents the empty id and is told the id): histories then start from ONE state.
             for h in 0..(if cfg.entry { 3 } else { 2 }) {
                 let fut = w.call_future(Call::Exec, h, 0, 1 + h as i32);
-                match w.rt.as_ref().unwrap().block_on(fut) {
-                    Outcome::Rows { .. } => {}
-                    other => return Err(format!("mixed-cluster warm-up EXECUTE failed: {other:?}")),
+                let from = w.trace_len();
+                let outcome = w.rt.as_ref().unwrap().block_on(fut);
+                let recs = w.trace_from(from);
+                let want = vec![expected_select_row(0, 1 + h as i32, 0), expected_select_row(0, 1 + h as i32, 1)];
+                match outcome {
+                    Outcome::Rows { ref rows, .. } if *rows == want => {}
+                    other => {
+                        // the mock answered (frames below) and the driver did not deliver the rows: the property's business
+                        let answered = recs.iter().any(|r| matches!(r.resp, Resp::Rows { .. }));
+                        if answered {
+                            return Err(format!(
+                                "VIOLATION setup:warm-up-decoding-failed|warm-up EXECUTE of handle {h} on the extension node: the node encoded {want:?} (metadata attached), the caller saw {other:?}; frames: {:?}",
+                                show_recs(&recs[..])
+                            ));
+                        }
+                        return Err(format!("mixed-cluster warm-up EXECUTE failed before the node answered: {other:?}; frames: {:?}", show_recs(&recs[..])));
+                    }
                 }
                 w.refh[h].id_unknown = false;
             }
@@ -814,7 +863,7 @@ impl World {
                     bits = (bits << 1) | n.cache[s][a] as u8;
                 }
             }
-            out.extend([bits, n.version, n.poisoned as u8]);
+            out.extend([bits, n.version, n.poisoned as u8 | (n.chatty as u8) << 1]);
         }
         for h in 0..(if self.cfg.entry { 3 } else { 2 }) {
             out.push(self.refh[h].usable.map(|v| v + 1).unwrap_or(0));
@@ -841,6 +890,9 @@ impl World {
             v.push(Ev::Paged { h: 0, node, mid: 0 });
             if !n.poisoned {
                 v.push(Ev::Poison { node });
+            }
+            if self.cfg.alpha >= 1 && !n.chatty {
+                v.push(Ev::Chatty { node });
             }
             if self.cfg.alpha >= 1 && !n.poisoned {
                 v.push(Ev::BatchMix { node, drop: 0 });
@@ -1049,6 +1101,10 @@ impl World {
             }
             Ev::Alter { node } => {
                 self.model.lock().unwrap().nodes[node as usize].version += 1;
+                Ok(())
+            }
+            Ev::Chatty { node } => {
+                self.model.lock().unwrap().nodes[node as usize].chatty = true;
                 Ok(())
             }
             Ev::Poison { node } => {
